@@ -51,6 +51,9 @@ def gen_cases(tier, seed):
     # one side sends its last object and ends at once; the other side is slow to get to its first recv
     for i in range(1 if tier == 'quick' else 6):
         cases.append({'kind': 'pipe', 'steps': 0, 'late_reader': ['client', 'server'][i % 2], 'late_by': [0.4, 1.2, 0.1][i % 3], 'last_objects': 1 + i % 3, 'seed': rng.randrange(1 << 30)})
+    # one side is created (and waits in its first recv) well before the other side exists
+    for i in range(2 if tier == 'quick' else 8):
+        cases.append({'kind': 'pipe', 'steps': 0, 'early_reader': ['client', 'server'][i % 2], 'late_by': [0.5, 1.5][i // 2 % 2], 'seed': rng.randrange(1 << 30)})
     return cases
 
 
@@ -303,6 +306,19 @@ def run_pipe(case):
         else:
             c_script, s_script, s_expect = send_script, recv_script, exp
         bound = 15
+    if case.get('early_reader'):
+        # "the two objects can be created in any order": one side exists and sits in its first recv before the other side is created at all
+        early = case['early_reader']
+        specs = [['literal', rng.choice(LITERALS)] for _ in range(2)]
+        send_script = [['create-after', case['late_by']]] + [['send', sp] for sp in specs]
+        recv_script = [['no-barrier']] + [['recv'] for _ in specs]
+        exp = [targets.digest(targets.make_payload(sp)) for sp in specs]
+        obs['pipe_objects'] += len(specs)
+        if early == 'client':
+            s_script, c_script, c_expect = send_script, recv_script, exp
+        else:
+            c_script, s_script, s_expect = send_script, recv_script, exp
+        bound = 15
     ps = mm.Process(target=targets.c18_pipe_peer, args=(path, 'server', s_script))
     pc = mm.Process(target=targets.c18_pipe_peer, args=(path, 'client', c_script))
     ps.start()
@@ -509,4 +525,4 @@ def decide_inconclusive(obs, results, cases):
     return None
 
 
-RULE = RULE + '; handlers raise 12 exception classes; /echo requests incl. surrogate-escaped strings and str/bytes subclasses; TCP transport; failing stream elements; tiny backlogs; late-reader pipe cases (known finding); a request whose payload or response cannot be pickled among ordinary requests on the same connections; streams whose input pauses for about the 0.1 s polling interval before its last elements, the consumer delayed after its empty poll'
+RULE = RULE + '; handlers raise 12 exception classes; /echo requests incl. surrogate-escaped strings and str/bytes subclasses; TCP transport; failing stream elements; tiny backlogs; late-reader and early-reader pipe cases; a request whose payload or response cannot be pickled among ordinary requests on the same connections; streams whose input pauses for about the 0.1 s polling interval before its last elements, the consumer delayed after its empty poll'
